@@ -1102,6 +1102,9 @@ Qed.
 Lemma backlog_uids_cons k us r : backlog_uids ((k, us) :: r) = us ++ backlog_uids r.
 Proof. reflexivity. Qed.
 
+Lemma fail_uids_map us : evs_uids (map SFail us) = us.
+Proof. induction us as [|u r IH]; [reflexivity|]. unfold evs_uids in *. simpl. rewrite IH. reflexivity. Qed.
+
 Lemma forward_perm : forall groups st,
   Permutation (evs_uids (snd (forward st groups)) ++ backlog_uids (s_backlog (fst (forward st groups))))
               (backlog_uids groups ++ backlog_uids (s_backlog st)).
@@ -1115,8 +1118,11 @@ Proof.
   - destruct (negb match s_queues st with [] => true | _ => false end && (name =? 0)).
     + specialize (IH st). destruct (forward st r) as [st' evs]. cbn [fst snd] in *.
       rewrite evs_uids_app, rr_uids. rewrite <- !app_assoc. apply Permutation_app_head. exact IH.
-    + rewrite IH. cbn [s_backlog]. rewrite badd_perm. rewrite <- !app_assoc.
-      apply Permutation_app_swap_app.
+    + destruct (memZ name (s_gone st)).
+      * specialize (IH st). destruct (forward st r) as [st' evs]. cbn [fst snd] in *.
+        rewrite evs_uids_app, fail_uids_map. rewrite <- !app_assoc. apply Permutation_app_head. exact IH.
+      * rewrite IH. cbn [s_backlog]. rewrite badd_perm. rewrite <- !app_assoc.
+        apply Permutation_app_swap_app.
 Qed.
 
 Lemma filter_split {A} (f : A -> bool) l :
@@ -1144,8 +1150,6 @@ Proof.
   apply perm4; [apply filter_split | exact IH].
 Qed.
 
-Lemma fail_uids_map us : evs_uids (map SFail us) = us.
-Proof. induction us as [|u r IH]; [reflexivity|]. unfold evs_uids in *. simpl. rewrite IH. reflexivity. Qed.
 
 Lemma sstep_perm st o :
   Permutation (evs_uids (snd (sstep st o)) ++ backlog_uids (s_backlog (fst (sstep st o))))
